@@ -341,6 +341,16 @@ func (g *gen) program() *zn.Program {
 	if g.pick(2, "finalexpr") == 0 {
 		p.Body = append(p.Body, &zn.ExprStmt{E: &zn.Bin{Op: "+", L: numE(float64(g.pick(9, "fe"))), R: numE(1000)}})
 		g.labels["final-expression"] = true
+		// declarations may stand anywhere in a body (they are hoisted): one AFTER the final
+		// expression statement does not change the program's value
+		switch g.pick(4, "trailing-decl") {
+		case 0:
+			p.Body = append(p.Body, &zn.FuncDef{Name: "尾法", Body: []zn.Stmt{&zn.Return{E: numE(5)}}})
+			g.labels["declaration-after-final-expression"] = true
+		case 1:
+			p.Body = append(p.Body, &zn.ClassDef{Name: "尾型", Props: []zn.Prop{{Name: "值", Init: numE(6)}}})
+			g.labels["declaration-after-final-expression"] = true
+		}
 	}
 	return p
 }
